@@ -21,7 +21,8 @@ META = {
                     "OrigSendingTime of a retransmitted earlier copy may be either the copy's 122 or its 52"],
 }
 REQUIRED_ORACLES = ["chain", "side-effects"]
-REQUIRED_COUNTERS = ["cases_by_feature:hole-in-range", "cases_by_feature:bounded-end-below-last", "replies_with_a_concurrent_new_message"]
+REQUIRED_COUNTERS = ["cases_by_feature:hole-in-range", "cases_by_feature:bounded-end-below-last", "replies_with_a_concurrent_new_message",
+                     "requests_served_after_the_clock_was_set_back"]
 NSHARDS = 16
 KINDS = ["app", "appx", "appg", "decl", "hb", "tr", "rr", "lo", "hole"]
 APPX_TYPES = ["AE", "AS", "AB", "AZ", "8", "BZ", "j"]     # application types that share a first character with session types
@@ -33,7 +34,7 @@ def plan(tier, seed):
     return [{"shard": i, "nshards": NSHARDS, "exh_len": 3 if q else 4, "nrand": 150 if q else 5000} for i in range(NSHARDS)]
 
 
-async def run_case(acc, clock, slots, prior, req, state, cid, concur=None):
+async def run_case(acc, clock, slots, prior, req, state, cid, concur=None, step_back=False):
     """slots: list of kinds; prior: None | "cover" | "partial"; req: (begin_spec, end_spec); state: "active" | "awaiting" """
     from asyncfix import FIXMessage, Journaler
     from asyncfix.connection import ConnectionRole, ConnectionState
@@ -123,6 +124,12 @@ async def run_case(acc, clock, slots, prior, req, state, cid, concur=None):
         begin = {"1": 1, "mid": mid, "last": last, "last+1": last + 1, "last+10": last + 10, "0": 0, "-3": -3}[bspec]
         end = {"0": 0, "b-1": begin - 1, "b": begin, "mid": mid, "last": last, "last+5": last + 5}[espec]
         w.update({"begin": begin, "end": end, "last": last, "journal_before": {k: fixwire.show(v)[:120] for k, v in before.items()}})
+        if step_back:
+            # the wall clock is set back (NTP step, fail-over to a host whose clock is behind) between the originals and the request:
+            # OrigSendingTime is the original's SendingTime all the same
+            clock.now -= 45.0
+            w["clock_stepped_back"] = True
+            acc.add("requests_served_after_the_clock_was_set_back")
         tap0 = len(ep.vf_tap)
         exc0 = len(ep.vf_log.exceptions)
         conc = {"n": 0, "sent": 0, "err": None}
@@ -317,7 +324,7 @@ def run_shard(spec, acc):
                                 cid = f"ex:{'.'.join(slots)}:{prior}:{state}:{b}:{e}"
                                 if not acc.want(cid):
                                     continue
-                                r = await run_case(acc, clock, list(slots), prior, (b, e), state, cid)
+                                r = await run_case(acc, clock, list(slots), prior, (b, e), state, cid, step_back=(idx % 11 == 0))
                                 if r is None:
                                     continue
                                 acc.case_disjoint(nontrivial=r[1])
@@ -330,7 +337,8 @@ def run_shard(spec, acc):
             slots = [rnd.choice(KINDS + ["app", "app"]) for _ in range(rnd.randrange(2, 10))]
             prior = rnd.choice([None, None, "cover", "partial"])
             concur = rnd.choice([None, None, 1, 1, 2, 3, "hook", "hook"])
-            r = await run_case(acc, clock, slots, prior, (rnd.choice(BEGINS + ["1", "mid"]), rnd.choice(ENDS + ["0", "0"])), rnd.choice(["active", "awaiting"]), cid, concur)
+            r = await run_case(acc, clock, slots, prior, (rnd.choice(BEGINS + ["1", "mid"]), rnd.choice(ENDS + ["0", "0"])), rnd.choice(["active", "awaiting"]), cid, concur,
+                               step_back=rnd.random() < 0.2)
             if r is None:
                 continue
             acc.case((tuple(slots), prior, cid.split(":")[0]), nontrivial=r[1])
